@@ -174,9 +174,9 @@ func VerifHarness_Modules() {
 func VerifHarness_ModuleChains() {
 	sc := errors.VerifParam("only", -1) // a pinned scenario (used with map-order exploration)
 	if sc < 0 {
-		sc = errors.VerifNdIntRange("scenario", 0, 4)
+		sc = errors.VerifNdIntRange("scenario", 0, 5)
 	}
-	errors.VerifTag("scenario", []string{"re-export", "inner-cycle", "diamond", "private-names", "same-named-function-elsewhere"}[sc])
+	errors.VerifTag("scenario", []string{"re-export", "inner-cycle", "diamond", "private-names", "same-named-function-elsewhere", "underscores-in-module-and-function-names"}[sc])
 	var modules map[string]string
 	var main, want string
 	wantErr := false
@@ -236,6 +236,13 @@ func VerifHarness_ModuleChains() {
 		main = "import fa from a;\nlet t = 100;\nfn k() -> int { return t + 1; }\nfn main() {\n  println(k(), fa());\n}\n"
 		modules = map[string]string{"a": a, "c": c, "main": main}
 		want = "101 202303\n"
+	case 5:
+		// module `a_b` with function `get` and module `a` with function `b_get`: different functions and globals
+		ab := "let v = 1;\npub fn get() -> int { return v; }\nfn main() { }\n"
+		a := "let b_v = 2;\npub fn b_get() -> int { return b_v; }\nfn main() { }\n"
+		main = "import get from a_b;\nimport b_get from a;\nfn main() {\n  println(get(), b_get());\n}\n"
+		modules = map[string]string{"a_b": ab, "a": a, "main": main}
+		want = "1 2\n"
 	case 4:
 		// main imports f from a; b (imported for g only) defines its own, unrelated f
 		form := errors.VerifNdIntRange("importForm", 0, 2) // single import, first of a list, second of a list
